@@ -40,6 +40,9 @@
 #include <stdint.h>
 #include <setjmp.h>
 #include <stdarg.h>
+#include <signal.h>
+#include <unistd.h>
+#include <sys/time.h>
 #include "mir.h"
 #include "mir-gen.h"
 
@@ -732,8 +735,32 @@ static void run_case (char *line) {
   MIR_finish (ctx);
 }
 
+/* Watchdog: every case runs under a CPU-time limit (ITIMER_PROF, C14_HANG_CPU seconds, default 10) and a wall-clock
+   limit (alarm, C14_HANG_WALL, default 120).  When one expires - the library or the code it generated loops forever on
+   the tree under test - the case's line is closed with the token `HANG@case` and the process exits with code 124: the
+   check takes `HANG ...` as the outcome of the case (a disagreement with the model) and restarts the harness after it. */
+static int hang_cpu = 10, hang_wall = 120;
+static void on_hang (int sig) {
+  (void) sig;
+  /* not async-signal-safe in general; the loops this is for spin inside MIR / generated code, not inside stdio */
+  printf (" HANG@case\n");
+  fflush (stdout);
+  _exit (124);
+}
+static void arm_watchdog (void) {
+  struct itimerval it;
+  memset (&it, 0, sizeof (it));
+  it.it_value.tv_sec = hang_cpu;
+  setitimer (ITIMER_PROF, &it, NULL);
+  alarm (hang_wall);
+}
+
 int main (void) {
   static char line[1 << 18];
+  if (getenv ("C14_HANG_CPU") != NULL && atoi (getenv ("C14_HANG_CPU")) > 0) hang_cpu = atoi (getenv ("C14_HANG_CPU"));
+  if (getenv ("C14_HANG_WALL") != NULL && atoi (getenv ("C14_HANG_WALL")) > 0) hang_wall = atoi (getenv ("C14_HANG_WALL"));
+  signal (SIGPROF, on_hang);
+  signal (SIGALRM, on_hang);
   while (fgets (line, sizeof (line), stdin) != NULL) {
     size_t l = strlen (line);
     if (l > 0 && line[l - 1] == '\n') line[l - 1] = 0;
@@ -741,6 +768,7 @@ int main (void) {
       printf ("\n");
       continue;
     }
+    arm_watchdog ();
     run_case (line);
     fflush (stdout);
   }
